@@ -59,6 +59,8 @@ def run_one(args):
             r = subprocess.run('patch -p1 -s --no-backup-if-mismatch < %s' % os.path.join(VERIF, entry['patch']), shell=True,
                                cwd=dst, capture_output=True, text=True)
             err = '' if r.returncode == 0 else 'patch does not apply: ' + (r.stdout + r.stderr)[-200:]
+            if not err and entry.get('edits'):
+                err = apply_edits(dst, entry['edits'])       # a change seeded into the refactored tree
         else:
             err = apply_edits(dst, entry['edits'])
         if err:
